@@ -50,7 +50,7 @@ PROPS = {
         "n": {"quick": 150, "thorough": 2500},
         "judge": True, "diff_is_failure": True, "needs_server": False, "shards": 8, "run_timeout": 2400,
         "trivial_outs": {"i1", ""},
-        "rule": "every history runs against a fresh server started with appendonly yes in its own scratch directory (sweeper stopped through the VERIF hook); cases = (1) the table tie: every command name of server.rs's dispatch table (read from /repo at run time, minus names that end or hijack the process/connection) sent once, then the file compared byte for byte with the model's log (ties Generated.write_commands to behaviour); (2) 12 fixed witnesses (one per known class + a MULTI/EXEC/DISCARD history); (3) random histories of 4-75 commands on 1-2 connections over the string/key family (c01 generator), lists/sets/hashes (c03 generator) and streams/groups, sent directly or queued under MULTI and run by EXEC / dropped by DISCARD / aborted by WATCH, with arity errors, wrong types, non-bulk arguments: two thirds 'clean' (logged deterministic catalogue, database 0, long TTLs = the domain of theorem c11_replay), one third 'dirty' (also SELECT, GETSET, HMSET, PEXPIRE, XREADGROUP, SPOP, XADD *, zero TTLs); every history ends with AOFREAD (file bytes + the frames the harness's own RESP reader decodes) and AOFREPLAY (the decoded commands are re-sent to a second fresh server; a 177-request dump - TYPE/PTTL/GET/LRANGE/SMEMBERS/HGETALL/XRANGE of 25 keys, XINFO/XPENDING of the stream keys, KEYS/DBSIZE of databases 0 and 1 - is run on both servers), one history in five also with AOFRESTART (kill, restart on the same directory, dump); one evaluation = one command reply, one file image, one replay (replies of the second server + both dumps) or one restart compared with the extracted Gallina model (replay = fold of normal_command on the empty server; SPOP / XADD * outcomes of the second server are oracles checked for admissibility)",
+        "rule": "every history runs against a fresh server started with appendonly yes in its own scratch directory (sweeper stopped through the VERIF hook); cases = (1) the table tie: every command name of server.rs's dispatch table (read from /repo at run time, minus names that end or hijack the process/connection) sent once, then the file compared byte for byte with the model's log (ties Generated.write_commands to behaviour); (2) 11 fixed witnesses (one per modelled class + a MULTI/EXEC/DISCARD history); (3) random histories of 4-75 commands on 1-2 connections over the string/key family (c01 generator), lists/sets/hashes (c03 generator) and streams/groups, sent directly or queued under MULTI and run by EXEC / dropped by DISCARD / aborted by WATCH, with arity errors, wrong types, non-bulk arguments: two thirds 'clean' (logged deterministic catalogue, database 0, long TTLs = the domain of theorem c11_replay), one third 'dirty' (also SELECT, GETSET, HMSET, PEXPIRE, XREADGROUP, SPOP, XADD *, zero TTLs); every history ends with AOFREAD (file bytes + the frames the harness's own RESP reader decodes) and AOFREPLAY (the decoded commands are re-sent to a second fresh server; a 177-request dump - TYPE/PTTL/GET/LRANGE/SMEMBERS/HGETALL/XRANGE of 25 keys, XINFO/XPENDING of the stream keys, KEYS/DBSIZE of databases 0 and 1 - is run on both servers), one history in five also with AOFRESTART (kill, restart on the same directory, dump); one evaluation = one command reply, one file image, one replay (replies of the second server + both dumps) or one restart compared with the extracted Gallina model (replay = fold of normal_command on the empty server; SPOP / XADD * outcomes of the second server are oracles checked for admissibility)",
         "explanation": "theorems: the file decodes to exactly the logged commands and every append is one whole frame (from the C20 round trip); a command is logged once, before dispatch, iff its name is in the generated table, EXEC logs its queue in order; completeness obligation over Generated.write_commands: every modelled command not in the table is inert up to lazy expiry (refuted for GETSET, HMSET, PEXPIRE, XREADGROUP); replay theorem by a lock-step invariant over all multi-connection histories with MULTI/EXEC in database 0: database 0 of the redo equals the live one (values, TTL presence, deadlines at one clock reading) when no logged command leaves an expired entry; the same with a clock reading per event and a redo at any later reading (values and TTL presence; per-handler proof that the clock is invisible while nothing expires; consumer-group commands excluded); 10 refutation theorems. Tie: differential run incl. file bytes, plus a property oracle on the implementation's outputs alone (file ends on a frame boundary, logged commands = the executed state-changing commands that took effect by an independent catalogue, replay dump = live dump, restart recovers the dataset); in cl-* histories the oracle accepts no failure, in dx-* histories failures must fall into a known class",
         "trusted_base": SRV_TB + ["tools/gen_tables.py: extraction of is_write_command's name list (cross-checked by the table-tie case: one invocation per dispatch name, file inspected)",
                                   "harness/src/c11.rs: reading of <dir>/appendonly.aof, second-server replay, restart; the oracle's catalogue of state-changing commands (STATE_CHANGING)",
